@@ -7,7 +7,7 @@
    direction are not touched, and that the result is in the box under exact comparisons.
    The first-local-minimiser clause is a statement about real numbers: it is proved on the exact-rational model (C08.v). *)
 From Coq Require Import List Bool Arith Sorted Floats.PrimFloat.
-From LBFGSB Require Generated.CauchyHead Generated.CauchyScalars Model.NumpyOps.
+From LBFGSB Require Generated.CauchyHead Generated.CauchyScalars Generated.CauchyStep Model.NumpyOps.
 From LBFGSB Require Import Base.FloatOrd Model.FloatVec Model.FCauchy Proofs.DriverBox Proofs.FCauchyFloat Proofs.FCauchyProofs.
 Import ListNotations.
 
@@ -141,6 +141,37 @@ Theorem C08f_zero_gradient_is_taken_by_the_loop :
   let r := fgcp_full ex_oracles [0%float] [0%float] [(-1)%float] [1%float] 1 [[0%float]] false in
   r_fixed r = [0] /\ vbits (r_xcp r) [0%float] = true /\ r_found r = false.
 Proof. exact zero_gradient_is_fixed. Qed.
+
+(* ... and so is ONE WHOLE PASS of the loop after the break test, on the whole state - which component of x_cp is put on which
+   bound, zb, c += delta_t * p BEFORE it is handed to the oracle of f', the vector 2 p + g_b W_b handed to the oracle of f'',
+   p += g_b * W_b, d[ibp] = 0, the scalars and t_old - by symbolic execution of the statements of the source in order
+   (Generated/CauchyStep.v), and the advance to the next breakpoint (t_cur = inf when the sorted indices are exhausted): the
+   model's loop unfolds into exactly these translated pieces. *)
+Module G := LBFGSB.Generated.CauchyStep.
+Lemma np_setitem_upd : forall a i v, B.np_setitem i v a = upd i v a.
+Proof. induction a as [|h a IH]; intros [|i] v; cbn; auto; try now rewrite IH. Qed.
+Lemma vinplace_axpy : forall (a : float) c p, B.vinplace add c (map (fun e => mul a e) p) = vip (fun cj pj => add cj (mul a pj)) c p.
+Proof. induction c as [|h c IH]; intros [|q p]; cbn; auto; try now rewrite IH. Qed.
+Lemma vadd_two_maps : forall (f h : float -> float) p w, vadd (map f p) (map h w) = vmap2 (fun a b => add (f a) (h b)) p w.
+Proof. induction p as [|a p IH]; intros [|b w]; cbn; auto. unfold vadd in IH. try now rewrite IH. Qed.
+
+Theorem C08f_loop_step_from_source : forall (O : oracles) (x g lb ub : vec) (theta : float) (W : list vec) (uf : bool)
+    (f2_org : float) (ibp : nat) (t_cur dt : float) (s : st),
+  let s1 := step O x g lb ub theta W uf f2_org ibp t_cur dt s in
+  G.cauchy_step (o_wMc O) (o_wMv O) theta f2_org uf x g lb ub (nth ibp W []) ibp t_cur dt (s_xcp s) (s_c s) (s_p s) (s_d s) (s_fp s) (s_fs s)
+  = (s_xcp s1, s_c s1, s_p s1, s_d s1, s_fp s1, s_fs s1, s_dtm s1, s_told s1).
+Proof.
+  intros. unfold s1, step, G.cauchy_step, row, ftwo, feps. cbv zeta. cbn [s_xcp s_c s_p s_d s_fp s_fs s_dtm s_told].
+  rewrite !np_setitem_upd, !vinplace_axpy, vadd_two_maps. reflexivity.
+Qed.
+
+Theorem C08f_loop_unfold_from_source : forall (O : oracles) (x g lb ub : vec) (theta : float) (W : list vec) (uf : bool)
+    (t : vec) (f2_org : float) (ibp : nat) (rest : list nat) (t_cur dt : float) (s : st),
+  loop O x g lb ub theta W uf t f2_org (ibp :: rest) t_cur dt s =
+  if S.cauchy_break (s_dtm s) dt then (s, true)
+  else let s1 := step O x g lb ub theta W uf f2_org ibp t_cur dt s in
+       let '(tn, dn) := G.cauchy_advance t rest (s_told s1) in loop O x g lb ub theta W uf t f2_org rest tn dn s1.
+Proof. intros. cbn [loop]. unfold S.cauchy_break, G.cauchy_advance, tnth. destruct (ltb (s_dtm s) dt); [reflexivity|]. cbv zeta. cbn [s_told step]. reflexivity. Qed.
 
 Print Assumptions C08f_head_from_source.
 Print Assumptions C08f_loop_scalars_from_source.
